@@ -43,7 +43,20 @@ def main(argv):
         if wanted and pid not in wanted:
             continue
         short = '--short' in argv
-        a = digests(pid, n, core.n_workers())
+        if pid in FRESH_HASHSEED and len(sample) > 1 and not wanted:
+            # C18's schedules depend on address-ordered sets: the reference execution too runs in an interpreter
+            # of its own (in this process the heap already holds the other checks' pools)
+            env0 = dict(os.environ, VERIF_HASHSEED='0', VERIF_ASLR='off', PYTHONHASHSEED='0')
+            env0.pop('VERIF_REEXEC', None)
+            p0 = subprocess.run([os.path.join(core.VERIF_DIR, 'check'), 'selftest', '--emit', pid, str(n)],
+                                capture_output=True, text=True, env=env0, timeout=900)
+            a = next((json.loads(line[8:]) for line in p0.stdout.splitlines() if line.startswith('DIGESTS ')), None)
+            if a is None:
+                print(f"HARNESS-ERROR: selftest {pid}: reference interpreter produced no digests: {p0.stderr[-300:]}")
+                failures += 1
+                continue
+        else:
+            a = digests(pid, n, core.n_workers())
         b = a if short else digests(pid, n, 3)
         hs = FRESH_HASHSEED.get(pid, '7')
         # C18's schedule also depends on address-ordered sets inside the library: ASLR stays off for it
